@@ -171,4 +171,17 @@ MCThrProbe == [d \in MCDomains |-> IF d = "tcp4" THEN 1 ELSE 3]
 MCThrTraffic == [d \in MCDomains |-> IF d = "tcp4" THEN 10 ELSE 50]
 MCBursts == [d \in MCDomains |-> IF d = "tcp4" THEN {1, 9} ELSE {1, 49}]
 MCRevivable == {"data4", "data6"}
+\* exhaustive small configuration: one TCP and one data-UDP domain, every history of 6 events
+MCDomainsSmall == {"tcp4", "data4"}
+MCAddrOfSmall == [n \in MCNodes |-> "proxy.example:443"]
+MCThrProbeSmall == [d \in MCDomainsSmall |-> IF d = "tcp4" THEN 1 ELSE 3]
+MCThrTrafficSmall == [d \in MCDomainsSmall |-> IF d = "tcp4" THEN 10 ELSE 50]
+MCBurstsSmall == [d \in MCDomainsSmall |-> IF d = "tcp4" THEN {9} ELSE {49}]
+MCRevivableSmall == {"data4"}
+\* ... of which those are replayed that end with a node coming back into a domain no other node is alive in
+LastRec == hist[Len(hist)]
+EndsWithLoneRevival == /\ Len(hist) = MaxHist /\ LastRec.a \in {"ProbeOk", "TrafficOk"}
+                       /\ cbs # <<>> /\ cbs[Len(cbs)] = [n |-> LastRec.n, d |-> LastRec.d, alive |-> TRUE]
+                       /\ \A m \in Nodes \ {LastRec.n} : ~alive[m][LastRec.d]
+EmitBfs == EndsWithLoneRevival => PrintT(<<"BEHAVIOUR", ToJson(Behaviour)>>)
 =============================================================================
